@@ -26,6 +26,8 @@ ASSUMPTIONS = [
     "while SortVersions has no tie-break (F-C12-1 open) permutation invariance for Maven/PyPI is decided under the side condition "
     "that no two different spellings compare equal; inside that condition, and everywhere once the finding is closed, a "
     "difference is a violation",
+    "the laws of the npm comparator over the mixture of parsable and unparsable strings are derived from the oracle's laws on "
+    "parsable strings alone (C12_npm_comparator_laws); F-C12-3 has its refuted statement (C12_perm_repeated_string_refuted)",
     "3% of the lists hold one version string twice with different attributes (inside the quantifier; the permutation theorems "
     "assume distinct strings): order-dependence there is the open finding F-C12-3",
     "lists on whose table Go's comparator is not lawful (hypothesis of the theorems) are counted (laws:false) and sent to the "
